@@ -44,6 +44,9 @@ def make_stack(d):
         X = (coef @ basis).reshape((n,) + shape) + 1e-3 * rng.standard_normal((n,) + shape)
     else:
         X = rng.standard_normal((n,) + shape) * np.linspace(1.0, 3.0, n)[:, None, None, None]
+    if d.get("stack_dtype", "float32") == "int16":
+        # integer-valued stack (e.g. raw int16 sub-volumes): PCA of exactly these values
+        return np.round(X * 20.0).astype(np.int16), labels
     return X.astype(np.float32), labels
 
 
@@ -54,6 +57,8 @@ def make_mask(kind, shape):
     r = np.sqrt(sum(g ** 2 for g in grids))
     if kind == "binary":
         return (r <= 0.95).astype(np.float32)
+    if kind == "binary-bool":
+        return r <= 0.95
     return (1 / (1 + np.exp((r - 0.8) / 0.1))).astype(np.float32)
 
 
@@ -152,7 +157,7 @@ def judge_pca(d):
     # projections of images other than the whole training stack: a subset, one image, a fresh batch
     import dask.array as da
     rng = np.random.Generator(np.random.Philox(d["seed"] + 77))
-    sub = sorted(set(int(i) % d["n"] for i in d.get("sub", [0])))
+    sub = [int(i) % d["n"] for i in d.get("sub", [0])]  # any order, repeats allowed
     fresh = (X[sub].astype(np.float64) * 0.5 + 0.7 * rng.standard_normal((len(sub),) + shape) + 0.3).astype(np.float32)
     mk = np.ones(shape) if mask is None else mask.astype(np.float64)
     for name, batch in (("subset", X[sub]), ("single", X[sub[:1]]), ("fresh", fresh)):
@@ -266,8 +271,9 @@ def pca_cases(draw):
     if draw(st.sampled_from([True, True, False])):
         chunks = draw(gen.chunkings([n] + shape, min_chunk=1))
     return {"k": k, "shape": shape, "n": n, "data": data, "n_clusters": nclu, "seed": draw(gen.seeds), "kseed": draw(st.integers(0, 99)),
-            "mask": draw(st.sampled_from(["none", "binary", "soft"])), "chunks": chunks,
-            "sub": draw(st.lists(st.integers(0, 39), min_size=1, max_size=6)), "sub_chunked": draw(st.booleans())}
+            "mask": draw(st.sampled_from(["none", "binary", "soft", "binary-bool"])), "chunks": chunks,
+            "sub": draw(st.lists(st.integers(0, 39), min_size=1, max_size=6)), "sub_chunked": draw(st.booleans()),
+            "stack_dtype": draw(st.sampled_from(["float32", "float32", "float32", "int16"]))}
 
 
 @st.composite
